@@ -266,6 +266,19 @@ def collectTxBefore (ms : List NMicro) (j : Nat) : Nat :=
       go rest isN (pos + 1) (if x.isTx && prevNotify then n + 1 else n)
   go ms false 0 0
 
+def nodeOpBranches (cfg : Cfg) (w : World) (op : NOp) : List String :=
+  match op with
+  | .taskRestart => ["taskrestart"]
+  | .point id l _ =>
+    match w.groups id with
+    | some cur => [if emits cfg cur l then "emit" else if cfg.sco && cur == l then "suppressed-unchanged" else if cfg.noRec && l == 0 && cur != 0 then "suppressed-norecovery" else "quiet-ok"]
+    | none =>
+      let (cur, fix) := restoreEvent cfg w.svc id
+      let a := cfg.anon.bind (fun T => w.svc.mem T id); let n := cfg.named.bind (fun T => w.svc.mem T id)
+      [if fix.isEmpty then (if cur == 0 then "newgroup-ok" else "newgroup-restored") else
+        (if a.isSome && n.isSome then "restore-anon-wins" else "restore-named-to-anon"),
+       if emits cfg cur l then "emit" else if cfg.sco && cur == l then "suppressed-unchanged" else if cfg.noRec && l == 0 && cur != 0 then "suppressed-norecovery" else "quiet-ok"]
+
 def judgeNodeCrash (cfg : Cfg) (topics ids : List String) (ops : List NOp) (unint : Option Dump) (k m : Nat) (post : Bool)
     (obs : List String) (acc : Acc) : Except Verdict Acc := do
   let what := s!"crash {k} {m} {if post then "post" else "pre"}"
@@ -342,20 +355,13 @@ def judgeNodeCrash (cfg : Cfg) (topics ids : List String) (ops : List NOp) (unin
   acc := acc.br cls
   if keys.any (fun (T, i) => lvOf resume T i != 0) && k + 1 < ops.length then acc := { acc with nontrivial := true }
   if keys.any (fun (T, i) => lvOf resume T i != 0) then acc := acc.br "resume-non-ok"
+  -- branches taken by the restarted run
+  let mut w := r0
+  for op in ops.drop (k + 1) do
+    for b in nodeOpBranches cfg w op do
+      if b.startsWith "restore-" || b == "newgroup-restored" then acc := acc.br ("restarted-" ++ b)
+    w := nstep cfg w op
   return acc
-
-def nodeOpBranches (cfg : Cfg) (w : World) (op : NOp) : List String :=
-  match op with
-  | .taskRestart => ["taskrestart"]
-  | .point id l _ =>
-    match w.groups id with
-    | some cur => [if emits cfg cur l then "emit" else if cfg.sco && cur == l then "suppressed-unchanged" else if cfg.noRec && l == 0 && cur != 0 then "suppressed-norecovery" else "quiet-ok"]
-    | none =>
-      let (cur, fix) := restoreEvent cfg w.svc id
-      let a := cfg.anon.bind (fun T => w.svc.mem T id); let n := cfg.named.bind (fun T => w.svc.mem T id)
-      [if fix.isEmpty then (if cur == 0 then "newgroup-ok" else "newgroup-restored") else
-        (if a.isSome && n.isSome then "restore-anon-wins" else "restore-named-to-anon"),
-       if emits cfg cur l then "emit" else if cfg.sco && cur == l then "suppressed-unchanged" else if cfg.noRec && l == 0 && cur != 0 then "suppressed-norecovery" else "quiet-ok"]
 
 def judgeNode (cfg : Cfg) (lines : Array String) : Verdict := Id.run do
   let topics := cfg.anon.toList ++ cfg.named.toList
